@@ -19,7 +19,8 @@ RULE = ("Hypothesis generates a job mix for LaneBasedExecutionQueue (1-8 lanes, 
         "stderr in generated chunk sizes (beyond the 64 KiB pipe buffer), exit codes 0-255, self-signals (SEGV, ABRT, "
         "TERM, INT, KILL), closing stdout/stderr early and living on, lane release over the control descriptor before "
         "or after output (and with a wrong task id), printing selected environment variables, ignoring SIGINT -- plus "
-        "non-existent and non-executable programs, explicit / inherited / colliding environments, and optionally "
+        "non-existent and non-executable programs, launches made while the process has only 0-7 free file descriptors "
+        "(pipe() or the spawn itself fails; one-lane queues only), explicit / inherited / colliding environments, and optionally "
         "cancelAllJobs() when the n-th job body starts. `qsim` (ThreadSanitizer build) drives the real queue and "
         "prints a totally ordered event log. Oracles: every job body ran exactly once before the queue was destroyed; "
         "never more bodies in flight than lanes; per launch exactly one completion, after its last output and after "
@@ -30,7 +31,8 @@ RULE = ("Hypothesis generates a job mix for LaneBasedExecutionQueue (1-8 lanes, 
         "report. Non-trivial = a run with more jobs than lanes and a launch whose output exceeds the pipe buffer or "
         "that released its lane; distinct = sha1 of the case.")
 ASSUMPTIONS = ["the client waits for every launched process's completion before destroying the queue, as the build engine does",
-               "interleavings are sampled, not owned; poll()/pipe() failures are not injected"]
+               "interleavings are sampled, not owned; poll() failures are not injected",
+               "a descriptor-starved launch may either fail as a spawn error (no output) or run normally, depending on how many descriptors it needs"]
 
 CHILD = os.path.join(BIN["rel"], "childsim")
 ST_OK, ST_FAILED, ST_CANCELLED = 0, 1, 2
@@ -74,6 +76,9 @@ def case(draw):
     kind = draw(st.sampled_from(["lane", "lane", "lane", "serial"]))
     lanes = 1 if kind == "serial" else draw(st.integers(1, 8))
     n = draw(st.integers(1, 40 if tier == "quick" else 200))
+    # descriptor starvation (pipe() / spawn failing for lack of descriptors) only where job bodies cannot
+    # overlap, so that the starved launch is the only one affected
+    starve = lanes == 1 and draw(st.integers(0, 2)) == 0
     jobs = []
     parent_of = {}
     for i in range(n):
@@ -93,6 +98,8 @@ def case(draw):
             j["inherit"] = draw(st.booleans())
             j["control"] = draw(st.integers(0, 4)) != 0
             j["interrupt"] = draw(st.integers(0, 5)) != 0
+            if starve and draw(st.integers(0, 2)) == 0:
+                j["fds"] = draw(st.integers(0, 7))
         jobs.append(j)
     # each job is submitted exactly once: at top level or by one earlier job
     top = []
@@ -122,6 +129,8 @@ def script_of(c):
             line += " proc=%s exe=%s env=%s inherit=%d control=%d interrupt=%d" % (
                 j["proc"], j["exe"], ";".join("%s=%s" % kv for kv in sorted(j["env"].items())) or "-",
                 int(j["inherit"]), int(j["control"]), int(j["interrupt"]))
+            if j.get("fds") is not None:
+                line += " fds=%d" % j["fds"]
         L.append(line)
     for t in c["top"]:
         L.append("submit " + t)
@@ -278,6 +287,7 @@ def run_case(case, ctx, verbose=False):
     cancelled_run = case["cancel"] is not None and cancel_ret is not None
     big = False
     released_any = False
+    starved = False
     for jid, lseq in launches.items():
         j = byid[jid]
         if jid not in completions:
@@ -294,6 +304,9 @@ def run_case(case, ctx, verbose=False):
         if j["exe"] != "-child":
             if status != ST_FAILED and not (cancelled_run and status == ST_CANCELLED):
                 return Outcome("job %s: spawning %s reported status %d" % (jid, j["exe"], status))
+            continue
+        if j.get("fds") is not None and status == ST_FAILED and not got:
+            starved = True      # the launch itself failed for lack of descriptors: a spawn error, reported once
             continue
         want, fate, released = expected_output(j, lanes_of[jid])
         released_any = released_any or released
@@ -321,6 +334,8 @@ def run_case(case, ctx, verbose=False):
         cls.append("output>pipe-buffer")
     if released_any:
         cls.append("lane-release")
+    if starved:
+        cls.append("descriptor-starved-launch")
     if any(j.get("exe", "-child") != "-child" for j in case["jobs"] if j["proc"] is not None):
         cls.append("spawn-error")
     return Outcome(None, nontrivial=nt, classes=cls, detail={"jobs": len(case["jobs"]), "launches": len(launches)})
